@@ -22,6 +22,10 @@
 (* empty list, hence nodes with ZERO jobs: a fully combined node without    *)
 (* jobs still has one (empty-list) output and its consumers run.            *)
 (*                                                                         *)
+(* A plain node may take a THIRD input z (never split): its job term is then *)
+(* [n, x, y, z].  Three inputs carrying one originating split must still    *)
+(* be aligned on it.                                                        *)
+(*                                                                         *)
 (* A node may be a NESTED WORKFLOW (field inner):                           *)
 (*   "none"   a plain task                                                 *)
 (*   "chain1" an inner workflow of one task  i0(x, y)                      *)
@@ -52,8 +56,11 @@ Term(n, x, y) == [t |-> "term", n |-> n, x |-> x, y |-> y]
 ListOf(vs) == [t |-> "list", v |-> vs]
 Str(x) == [t |-> "str", s |-> x]
 IntV(i) == [t |-> "int", i |-> i]
-Splittable(v) == v.t \in {"list", "term"}
-AsList(v) == IF v.t = "list" THEN v.v ELSE IF v.t = "term" THEN <<Str(v.n), v.x, v.y>> ELSE <<>>
+Term4(n, x, y, z) == [t |-> "term4", n |-> n, x |-> x, y |-> y, z |-> z]
+Splittable(v) == v.t \in {"list", "term", "term4"}
+AsList(v) == IF v.t = "list" THEN v.v ELSE IF v.t = "term" THEN <<Str(v.n), v.x, v.y>>
+             ELSE IF v.t = "term4" THEN <<Str(v.n), v.x, v.y, v.z>> ELSE <<>>
+Zs(nd) == IF "z" \in DOMAIN nd THEN nd.z ELSE [k |-> "none", v |-> ""]
 MkOf(nd) == IF "mk" \in DOMAIN nd THEN nd.mk ELSE 0 - 1
 
 InnerKind(nd) == IF "inner" \in DOMAIN nd THEN nd.inner ELSE "none"
@@ -84,7 +91,7 @@ Dedup(s, seen) == IF s = <<>> THEN <<>>
                   ELSE <<Head(s)>> \o Dedup(Tail(s), seen \cup {Head(s)})
 
 (* upstream node names of a node, in input-field order, without repetition *)
-Ups(nd) == Dedup(SelectSeq(<<nd.x, nd.y>>, LAMBDA s : s.k = "node"), {})
+Ups(nd) == Dedup(SelectSeq(<<nd.x, nd.y, Zs(nd)>>, LAMBDA s : s.k = "node"), {})
 
 (* info[n] = [keys : ordered coordinate list of the remaining axes,
               rem  : set of remaining axes,
@@ -123,6 +130,7 @@ EvalNode(wf, nd, info) ==
              IF f \in SplitFields(nd) THEN (IF badsplit THEN NoneVal ELSE AsList(u)[r[<<nm, f>>] + 1]) ELSE u
       jobval(r) == LET xv == val(r, nd.x, "x")  yv == val(r, nd.y, "y") IN
                    IF MkOf(nd) >= 0 THEN ListOf([k \in 1..MkOf(nd) |-> Term(nm, IntV(k - 1), xv)])
+                   ELSE IF Zs(nd).k # "none" THEN Term4(nm, xv, yv, val(r, Zs(nd), "z"))
                    ELSE JobTerm(nd, xv, yv)
       jobs == [i \in 1..Len(R) |-> jobval(R[i])]
       badinner == InnerSplits(nd) /\ \E i \in 1..Len(R) : val(R[i], nd.x, "x").t # "list"
